@@ -8,6 +8,7 @@ import YalafiVerif.Model.Shell
 import YalafiVerif.Model.Html
 import YalafiVerif.Model.ProtoChecks
 import YalafiVerif.Model.ProtoReports
+import YalafiVerif.Model.ProtoHtmlText
 import YalafiVerif.Generated.Tables
 open Yalafi Yalafi.Proto
 open Yalafi.Html (generateHtml normContext firstRows)
@@ -220,6 +221,12 @@ def dispatch (op : String) : R (List String) :=
   | "LOCATE" => opLocate
   | "NUMS" => opNums
   | "TRANSNUM" => opTransNum
+  | "ESCAPES" => opEscapes
+  | "BRMATCHES" => opBrMatches
+  | "BEGINMATCH" => opBeginMatch
+  | "HIGHLIGHT" => opHighlight
+  | "ADDLINES" => opAddLines
+  | "HTMLTEXT" => opHtmlText T
   | _ => throw s!"unknown op {op}"
 
 def handle (line : String) : String :=
